@@ -166,20 +166,41 @@ class ObsScenario(NetScenario):
         st.used = set()
         st.shut = False
         n = self.name
-        if n == "S-OBS-slowrender":
+        if n in ("S-OBS-slowrender", "S-OBS-slowrender-two"):
             st.res.render_delay = 0.1
         if n == "S-OBS-twotokens-deaf":
             # an observer with two registrations that never acknowledges a notification: the first notification is given up after
             # MAX_TRANSMIT_WAIT - and a registration that is still alive afterwards still gets the latest state
             st.o1.deaf = True
             st.disturbed = True      # (what is sent to an observer that never acknowledges anything waits, and goes down with the give-up)
-        if n in ("S-OBS-con", "S-OBS-two", "S-OBS-slowrender", "S-OBS-twotokens", "S-OBS-twotokens-deaf", "S-OBS-sametoken", "S-OBS-midcollide"):
+        if n in ("S-OBS-con", "S-OBS-two", "S-OBS-slowrender", "S-OBS-slowrender-two", "S-OBS-twotokens", "S-OBS-twotokens-deaf", "S-OBS-sametoken", "S-OBS-midcollide"):
             st.script.append(("register O1 CON", lambda st: self.register(st, st.o1, True)))
         if n in ("S-OBS-twotokens", "S-OBS-twotokens-deaf"):
             st.script.append(("register O1 CON token2", lambda st: self.register(st, st.o1, True, b"\xa2")))
         if n in ("S-OBS-non", "S-OBS-two", "S-OBS-sametoken"):
             st.script.append(("register O2 NON", lambda st: self.register(st, st.o2, False)))
-        for i in range(3 if n not in ("S-OBS-two", "S-OBS-twotokens", "S-OBS-twotokens-deaf", "S-OBS-sametoken") else 2):
+        if n == "S-OBS-slowrender-two":
+            # exactly one change arrives while the re-rendering for the one before it is under way (and none after it)
+            def passes(dt):
+                def fn(st):
+                    end = st.world.loop.time() + dt
+                    while True:
+                        for dg in list(st.world.pool):
+                            self.before_deliver(st, dg)
+                            st.world.deliver(dg)
+                            self.after_deliver(st, dg)
+                        tn = st.world.loop.next_timer()
+                        if tn is None or tn > end:
+                            break
+                        st.world.loop.fire_next_timer()
+                    st.world.loop.advance_to(end)
+                return fn
+            st.script.append(("0.15 s pass", passes(0.15)))
+            st.script.append(("change", lambda st: self.change(st)))
+            st.script.append(("0.05 s pass", passes(0.05)))
+            st.script.append(("change", lambda st: self.change(st)))
+            return
+        for i in range(3 if n not in ("S-OBS-two", "S-OBS-twotokens", "S-OBS-twotokens-deaf", "S-OBS-sametoken", "S-OBS-slowrender-two") else 2):
             st.script.append(("change", lambda st: self.change(st)))
 
     def nextmid(self, st, obs):
@@ -433,7 +454,7 @@ class ObsScenario(NetScenario):
 
 
 def run(tier, seed, jobs):
-    names = ["S-OBS-con", "S-OBS-non", "S-OBS-two", "S-OBS-slowrender", "S-OBS-twotokens", "S-OBS-sametoken", "S-OBS-midcollide", "S-OBS-twotokens-deaf"]
+    names = ["S-OBS-con", "S-OBS-non", "S-OBS-two", "S-OBS-slowrender", "S-OBS-twotokens", "S-OBS-sametoken", "S-OBS-midcollide", "S-OBS-twotokens-deaf", "S-OBS-slowrender-two"]
     K = 1 if tier == "quick" else 2
     res = explore_schedules([ObsScenario(n, K) for n in names], K, jobs)
     if tier == "quick":
